@@ -116,6 +116,9 @@ func shortTok(t uint64) message.Token {
 // front of its Observe option (6): the decoder skips it - and must still decode Observe as Observe
 var skipBefore bool
 
+// padObserve (`arrivep` lines): the Observe value is written in three bytes, with leading zeros
+var padObserve bool
+
 func (w *world) inject(tok uint64, code codes.Code, seq string, tag string, alias ...bool) {
 	m := pool.NewMessage(context.Background())
 	m.SetCode(code)
@@ -128,7 +131,13 @@ func (w *world) inject(tok uint64, code codes.Code, seq string, tag string, alia
 	}
 	if seq != "-" {
 		v, _ := strconv.ParseUint(seq, 10, 32)
-		m.SetObserve(uint32(v))
+		if padObserve {
+			// a peer that always writes the sequence number in three bytes: leading zero bytes are legal in a uint option
+			// (RFC 7252 section 3.2: a recipient must be prepared to process them)
+			m.SetOptionBytes(message.Observe, []byte{byte(v >> 16), byte(v >> 8), byte(v)})
+		} else {
+			m.SetObserve(uint32(v))
+		}
 	}
 	m.SetContentFormat(message.TextPlain)
 	m.SetBody(strings.NewReader(tag))
@@ -440,6 +449,17 @@ func runCase(t *testing.T, transport string, ops [][]string) []string {
 					skipBefore = true
 					w.inject(tok, codes.Code(code), f[3], f[5])
 					skipBefore = false
+				case "arrivep":
+					// as `arrive`, the Observe value zero-padded to three bytes
+					tok, _ := strconv.ParseUint(f[1], 10, 64)
+					code, _ := strconv.ParseUint(f[2], 10, 16)
+					at, _ := strconv.ParseInt(f[4], 10, 64)
+					if d := time.Duration(at) - time.Since(w.start); d > 0 {
+						time.Sleep(d)
+					}
+					padObserve = true
+					w.inject(tok, codes.Code(code), f[3], f[5])
+					padObserve = false
 				case "arrivez":
 					// the same bytes without the leading zeros: another token, nobody's
 					tok, _ := strconv.ParseUint(f[1], 10, 64)
@@ -575,7 +595,7 @@ func TestC08(t *testing.T) {
 		case len(f) == 1 && f[0] == "end":
 			flush(w)
 			fmt.Fprintln(w, "end")
-		case transport != "" && (f[0] == "reg" && (len(f) == 2 || len(f) == 3) || (f[0] == "arrive" || f[0] == "arrivez" || f[0] == "arrivex") && len(f) == 6 || (f[0] == "regabort" || f[0] == "cancel") && len(f) == 3 || f[0] == "cancel" && len(f) == 4):
+		case transport != "" && (f[0] == "reg" && (len(f) == 2 || len(f) == 3) || (f[0] == "arrive" || f[0] == "arrivez" || f[0] == "arrivex" || f[0] == "arrivep") && len(f) == 6 || (f[0] == "regabort" || f[0] == "cancel") && len(f) == 3 || f[0] == "cancel" && len(f) == 4):
 			ops = append(ops, f)
 		default:
 			flush(w)
